@@ -18,8 +18,10 @@ META = {
                 "check_is_signed_by_claimed_peer / verify_for / has_expired / historical_verify / hash, and logs the abstract projection of "
                 "the concrete quote (table look-up on concrete bytes; signatures by provenance); the TLA+ clause operators judge every call. "
                 "All quotes cannot be enumerated: the mutation lattice is exhaustive, concrete values are sampled. The history rule is also followed into a real node "
-                "(QuoteHistory.tla): sequences of quotes of two peers, TLC-generated and random, are handed to the real QuoteVerification handler of a SwarmDriver and "
-                "the retained quote / recorded issue after every step is judged (inconsistent with the retained quote => issue on record, never retained; the reference never moves back).",
+                "(QuoteHistory.tla): sequences of quotes of up to three peers, TLC-generated, crafted and random, are handed to the real QuoteVerification handler of a SwarmDriver -- singly and as "
+                "batches of up to four entries in one command (mixed peers, the same peer twice, a peer the node already considers bad in front) -- and "
+                "the retained quote / recorded issue after every command is judged for every entry (inconsistent with the retained quote => issue on record, never retained; the reference never moves back). "
+                "ProofOfPayment::has_expired is called on proofs with the expired quote in every position; the expiry edges are also probed at one second's distance from a now taken with nanoseconds.",
         "note": "trusted: TLC; ed25519 (ideal-signature assumption: a signature verifies only for the key and message it was made with); the driver's "
                 "value tables (abstraction function); the wall clock moving forward by < 2 s during one call",
         "design_ref": "5 Area Quote",
@@ -44,6 +46,10 @@ def _describe(e):
                                                                            for x in e["entries"]])
     if ev == "Expiry":
         return "has_expired() -> %s for a quote dated now%+ds (+%dns)" % (e["res"], e["d"], e["nanos"])
+    if ev == "ProofExpiry":
+        return "ProofOfPayment::has_expired() -> %s for a proof whose quotes are dated now%s s" % (e["res"], ["%+d" % d for d in e["ds"]])
+    if ev == "ExpiryFine":
+        return "has_expired() -> %s for a quote dated exactly %+d ms from a now taken with nanoseconds (call took %d ms)" % (e["res"], e["ms"], e["elapsed_ms"])
     if ev == "History":
         return "historical_verify(self=%s, other=%s, same node=%s) -> %s" % (e["a"], e["b"], e["same"], e["res"])
     if ev == "HashPair":
@@ -53,7 +59,7 @@ def _describe(e):
 
 def _key(e):
     x = dict(e)
-    for k in ("dnow", "src", "exp", "variant"):
+    for k in ("dnow", "src", "exp", "variant", "elapsed_ms"):
         x.pop(k, None)
     return json.dumps(x, sort_keys=True)
 
@@ -87,10 +93,15 @@ def history_node(v, w, thorough, scenario=None):
                   coverage=False, timeout=1800, extra=["-seed", str(seed())])
         if sim.violated:
             v.violation("model:" + sim.violated, "clause falsified on a simulated behaviour of the quote-history model", {"area": "quote", "tlc": sim.error_text[:6000]})
-        write_ndjson(scn_path, _scn_lines(sim, 40000 if thorough else 3000))
-        nrandom = 20000 if thorough else 1500
+        # the same model with a third peer that the node comes to consider bad and with steps joined into batches
+        simw = tlc("quote", "MCQuoteHistory", "MCQuoteHistory_simwide.cfg", w, workers=1, simulate="num=%d" % (2000 if thorough else 150), depth=8,
+                   coverage=False, timeout=1800, extra=["-seed", str(seed())])
+        if simw.violated:
+            v.violation("model:" + simw.violated, "clause falsified on a simulated behaviour of the quote-history model (batches, bad peer)", {"area": "quote", "tlc": simw.error_text[:6000]})
+        write_ndjson(scn_path, _scn_lines(sim, 40000 if thorough else 3000) + _scn_lines(simw, 40000 if thorough else 3000))
+        nrandom = 32000 if thorough else 2500
     trace = os.path.join(w, "hist-trace.ndjson")
-    run_driver("drv_quotehist", ["--scenarios", scn_path, "--random", nrandom, "--out", trace, "--work", w], w, timeout=3000)
+    run_driver("drv_quotehist", ["--scenarios", scn_path, "--random", nrandom, "--crafted", 0 if scenario is not None else 1, "--out", trace, "--work", w], w, timeout=3000)
     rep = validate_trace("quote", "QuoteHistoryTrace", "QuoteHistoryTrace.cfg", trace, w, timeout=3000, heap="6g")
     events = read_ndjson(trace)
     starts, cur = {}, 0
@@ -100,7 +111,8 @@ def history_node(v, w, thorough, scenario=None):
         starts[i] = cur
 
     def scn_of(line):
-        return [{"p": e["p"], "q": e["q"]} for e in events[starts[line - 1] + 1:line]]
+        # the scenario of the run (steps with their batch-joining flag j and bad-marking steps), as logged at its start
+        return events[starts[line - 1]].get("scn", [])
 
     for x in rep["violations"]:
         e = events[x["line"] - 1]
@@ -110,12 +122,25 @@ def history_node(v, w, thorough, scenario=None):
             v.violation(x["clause"], "a quote created by the node (create_quote_for_storecost) verifies for another identity (%s) or with an altered signed field (%s)" % (
                 e["other"], e["altered"]), {"area": "quote", "hist_scenario": [], "event": e})
             continue
+        if e["ev"] == "Batch":
+            v.violation(x["clause"], "one QuoteVerification command with %d entries on a real node: %s" % (len(e["entries"]), "; ".join(
+                "peer %s%s quote %s: retained before %s, after %s, issue on record: %s" % (y["p"], " (considered bad)" if y["bad0"] else "", y["q"], y["before"], y["after"], y["issue"])
+                for y in e["entries"])), {"area": "quote", "hist_scenario": scn_of(x["line"]), "event": e})
+            continue
         v.violation(x["clause"], "QuoteVerification of %s for peer %s on a real node: retained before %s, after %s, issue on record: %s" % (
             e["q"], e["p"], e["before"], e["after"], e["issue"]), {"area": "quote", "hist_scenario": scn_of(x["line"]), "event": e})
     for ln in rep.get("drift", [])[:20]:
         e = events[ln - 1]
         v.drift.append({"what": "quote-history model and node disagree", "event": json.dumps(e)[:300]})
-    steps = [e for e in events if e["ev"] == "Quote"]
+    batches = [e for e in events if e["ev"] == "Batch"]
+    steps = [e for e in events if e["ev"] == "Quote"] + [y for e in batches for y in e["entries"]]
+    v.cov["history_node_batches"] = len(batches)
+    v.cov["history_node_batch_entries"] = sum(len(e["entries"]) for e in batches)
+    v.cov["history_node_batches_same_peer_twice"] = sum(1 for e in batches if len(set(y["p"] for y in e["entries"])) < len(e["entries"]))
+    v.cov["history_node_entries_of_bad_peer"] = sum(1 for y in steps if y.get("bad0"))
+    v.cov["history_node_bad_markings"] = sum(1 for e in events if e["ev"] == "MarkBad" and e["bad"])
+    nq = [e for e in events if e["ev"] == "NodeQuote"]
+    v.cov["node_created_quotes_by_kind"] = {k: sum(1 for e in nq if e.get("kind") == k) for k in sorted(set(e.get("kind") for e in nq))}
     v.cov["node_created_quotes"] = sum(1 for e in events if e["ev"] == "NodeQuote")
     v.cov["history_node_steps"] = len(steps)
     v.cov["history_node_runs"] = sum(1 for e in events if e["ev"] == "Reset")
@@ -200,7 +225,8 @@ def run(prop, tier, replay=None):
     v.cov["rule"] = ("TLC enumerates: every subset of altered signed fields (content, timestamp +1/-1 s, %s, rewards address) x carried key "
                      "(signer / other node / no key) x signature (kept / garbled / re-made by the signer / made by the other node over the altered "
                      "fields) x claimed identity (3); every proof of <= %d entries over 7 entry kinds x 3 verifying identities; %d timestamps "
-                     "around now-3600 and now (>= 2 s from an edge); uptime {lower,equal,higher,much higher} x payment count {lower,equal,higher} x "
+                     "around now-3600 and now (>= 2 s from an edge); every proof of <= 3 (thorough: 4) quotes over dates before / inside / after the window for the "
+                     "proof-level expiry; the edges at exactly 1 s / 2 s distance in milliseconds; uptime {lower,equal,higher,much higher} x payment count {lower,equal,higher} x "
                      "same/different node x receiver x gap. Garbled signatures / keys are realised in every variant (bit flip, empty, random, "
                      "truncated, zeros). The driver adds sub-second parts, far past/future dates and seeded random quotes, proofs, hash pairs, "
                      "dates and history pairs. A case is one real call; distinct = distinct abstract argument + result."
@@ -217,7 +243,11 @@ def run(prop, tier, replay=None):
         "the driver signs exactly like ant-node's create_quote_for_storecost (PaymentQuote::bytes_for_signing + Keypair::sign, key = "
         "encode_protobuf); ant-node itself is not linked into this driver",
         "time has whole-second granularity (I4): a sub-second change of the timestamp is not an alteration; expiry is tested >= 2 s from both edges "
-        "on the side the passing of time approaches, each call completes within 1 s of sampling now (retried otherwise)",
+        "on the side the passing of time approaches, each call completes within 1 s of sampling now (retried otherwise); additionally at exactly 1 s beyond / inside the old edge and 2 s "
+        "beyond the future edge relative to a now taken with nanoseconds, where a call slower than 0.5 s is voided; a quote 3600.5 s old is an observation only (note ExpiryTruncatesAgeToWholeSeconds)",
+        "a proof of payment is expired exactly when one of its quotes is (ProofOfPayment::has_expired is what a node calls)",
+        "within one QuoteVerification command only the state before and after the whole command is observable: a second entry of the same peer is judged against the reference that "
+        "follows from the observed one and the entries before it (newest consistent quote); entries of a peer the node already considers bad are skipped by the node, its issues stay on record",
         "historical_verify is called on pairs; 'from the same node' is the caller's keying of its history by peer id (SwarmDriver::verify_peer_quote), "
         "reached by the node-level run (drv_quotehist: the real QuoteVerification handler, judged against the retained quote); a node retains only the "
         "newest consistent quote per peer, so a quote is compared with that one and not with every earlier quote; pairs of different nodes and pairs "
@@ -235,6 +265,10 @@ def _case_of(e, all_cases):
         return None
     if e["ev"] == "Expiry":
         return next((c for c in all_cases if c["kind"] == "expiry" and c["d"] == e["d"]), None)
+    if e["ev"] == "ProofExpiry":
+        return next((c for c in all_cases if c["kind"] == "pexpiry" and list(c["ds"]) == list(e["ds"])), None)
+    if e["ev"] == "ExpiryFine":
+        return next((c for c in all_cases if c["kind"] == "fine" and c["ms"] == e["ms"]), None)
     if e["ev"] == "History":
         for c in all_cases:
             if c["kind"] == "history" and c["same"] == e["same"]:
